@@ -513,6 +513,7 @@ def explore(interp, thunk, max_paths=400):
         prefix = stack.pop()
         interp.begin_path(prefix)
         p = interp.path
+        marks = {k: len(getattr(interp, k)) for k in ('quad_records', 'newton_records', 'root_records', 'cumsum_records', 'eig_records') if hasattr(interp, k)}
         try:
             p.result = thunk()
             p.kind = 'return'
@@ -521,6 +522,8 @@ def explore(interp, thunk, max_paths=400):
         except PyRaise as e:
             p.kind = 'raise'
             p.exc = e
+        for k, n0 in marks.items():
+            setattr(p, k, list(getattr(interp, k)[n0:]))      # library-call records made on this path
         trace = list(interp.decisions)
         p.decisions = trace
         paths.append(p)
@@ -1181,7 +1184,7 @@ class Frame:
                 for c in g.ifs:
                     t = self.truth(self.eval(c))
                     if not isinstance(t, bool):
-                        raise Unsupported("symbolic comprehension filter")
+                        t = self.I.decide(t)      # symbolic filter: fork (one path per outcome)
                     ok = ok and t
                 if ok:
                     rec(i + 1)
